@@ -2,7 +2,7 @@
     [Print Assumptions]; [Example]s validate the specification and record refuted
     strengthenings (with their concrete witnesses). *)
 From Coq Require Import ZArith NArith List Bool.
-From PV Require Import Prep.Codec Prep.CodecProofs.
+From PV Require Import Prep.Codec Prep.CodecProofs Prep.Cache Prep.CacheProofs Prep.CacheObs.
 Import ListNotations.
 Open Scope Z_scope.
 
@@ -152,4 +152,136 @@ Proof. cbv zeta. do 2 eexists. split; [vc|]. split; [vc|]. split; [vc|]. split; 
 Example c08_canonical_nonempty : parse_canonical (parse_a_sel1 []) = true /\
   describe_canonical ([68]%N ++ be32 7 ++ [83; 97; 0]%N) = true /\
   parse_wf (mkParse 80%N 17 [97%N] [83;69;76;69;67;84;32;49]%N 0 []) = true.
+Proof. vm_compute. repeat split; reflexivity. Qed.
+
+(** * Layer 2 — the cache against a direct connection *)
+Close Scope Z_scope.
+
+(** For ALL histories (no guard, no hypothesis on the hash): a server-side name PGCAT_g denotes
+    one statement on every backend, in every client map — different statements never share a
+    server-side statement, and what a client calls its statements never matters server-side. *)
+Theorem c08_names_determine_statement : forall K ops w, w = fst (run K world0 ops) ->
+  (forall s1 s2 g st1 st2, In (g, st1) (btab (servers w s1)) -> In (g, st2) (btab (servers w s2)) -> st1 = st2) /\
+  (forall c s n g st1 st2, In (n, (g, st1)) (cmap (clients w c)) -> In (g, st2) (btab (servers w s)) -> st1 = st2) /\
+  (forall c1 c2 n1 n2 g st1 st2, In (n1, (g, st1)) (cmap (clients w c1)) -> In (n2, (g, st2)) (cmap (clients w c2)) -> st1 = st2).
+Proof. exact names_determine_statement. Qed.
+Print Assumptions c08_names_determine_statement.
+
+(** For every multi-client program, every cache size >= 1, every assignment of transactions to
+    server connections: if no two statements of the program collide under the hash and the
+    program passes the (computable, specification-only) guard of Cache.v, then each client
+    receives, Sync by Sync, what a direct connection would have sent: the same statement run by
+    every Execute, described by every Describe, no error, the same acknowledgements. *)
+Theorem c08_refines_direct : forall K ops,
+  hash_collision_free K ops -> guard K ops = true -> model_obs K ops = spec_obs K ops.
+Proof. exact refines_direct. Qed.
+Print Assumptions c08_refines_direct.
+
+Theorem c08_clients_independent : forall K ops c,
+  hash_collision_free K ops -> guard K ops = true -> guard K (proj c ops) = true ->
+  filter (fun o => obs_client o =? c) (model_obs K ops) = model_obs K (proj c ops).
+Proof. exact clients_independent. Qed.
+Print Assumptions c08_clients_independent.
+
+(** Evicted statements are closed on the backend and re-prepared on demand: after a guarded
+    program every server connection's cache is exactly the set of names its backend holds (at
+    most [cs] of them, each with the statement the name stands for); re-preparation is the
+    absence of errors in [c08_refines_direct]. *)
+Theorem c08_evicted_closed_and_reprepared : forall K ops w,
+  hash_collision_free K ops -> guard K ops = true -> w = fst (run K world0 ops) ->
+  forall s, NoDup (lru (servers w s)) /\ length (lru (servers w s)) <= cs K /\
+            (forall g, In g (lru (servers w s)) <-> alookup g (btab (servers w s)) <> None) /\
+            (forall g st, In (g, st) (btab (servers w s)) -> nth_error (gdef w) g = Some st).
+Proof. exact evicted_closed. Qed.
+Print Assumptions c08_evicted_closed_and_reprepared.
+
+(** ** Non-vacuity: guarded programs with evictions, shared and shadowed names, several servers *)
+Example c08_guard_nonvacuous :
+  agree (Kid 1) [Parse 0 1 10; Sync 0 0; Parse 1 1 11; Sync 1 0; Parse 1 2 10; Bind 1 2; Execute 1; Sync 1 0; Bind 0 1; Execute 0; Sync 0 0] = (true, true) /\
+  agree (Kid 4) [Parse 0 1 10; Parse 1 1 11; Sync 0 0; Sync 1 0; Bind 0 1; Execute 0; Sync 0 1; Bind 1 1; Execute 1; Sync 1 1] = (true, true) /\
+  agree (Kid 2) [Parse 0 1 10; Parse 0 2 11; Sync 0 0; Bind 0 1; Execute 0; Bind 0 2; Execute 0; Sync 0 1; Close 0 1; Sync 0 1; Parse 0 1 12; Bind 0 1; Execute 0; Sync 0 0] = (true, true) /\
+  model_obs (Kid 1) [Parse 0 1 10; Bind 0 1; Execute 0; Sync 0 0; Parse 0 2 11; Bind 0 2; Execute 0; Sync 0 0; Bind 0 1; Execute 0; Sync 0 0]
+    = [NReplies 0 ([RRow 10], (1, 1, 0, 1)); NReplies 0 ([RRow 11], (1, 1, 0, 1)); NReplies 0 ([RRow 10], (0, 1, 0, 1))].
+Proof. vm_compute. repeat split; reflexivity. Qed.
+
+(** ** The hypothesis and every clause of the guard are needed: refuted strengthenings.
+    [agree K ops = (g, a)]: g = the guard, a = (model_obs = spec_obs).  Each witness is a
+    message sequence to be confirmed on the wire (see props/c08.py WITNESSES). *)
+
+(* without hash_collision_free: two statements with one hash share a server-side statement *)
+Example c08_hash_collision_refuted :
+  agree (Kcollide 4) [Parse 0 1 10; Sync 0 0; Parse 1 1 11; Bind 1 1; Execute 1; Sync 1 0] = (true, false).
+Proof. vm_compute. reflexivity. Qed.
+
+(* (i) two Parses in one batch, the first fails: the second stays in the server cache although
+   the backend skipped it; the retry is acknowledged from the cache, the Bind then fails *)
+Example c08_gap_first_parse_fails_second_stays_cached :
+  agree (Kid 8) [Parse 0 1 90; Parse 0 2 10; Sync 0 0; Parse 0 2 10; Sync 0 0; Bind 0 2; Execute 0; Sync 0 0] = (false, false) /\
+  agree (Kid 8) [Parse 0 1 90; Parse 0 2 10; Sync 0 0; Parse 1 7 10; Bind 1 7; Execute 1; Sync 1 0] = (false, false).
+Proof. vm_compute. split; reflexivity. Qed.
+
+(* G2: Close n and Parse n in one batch: the new statement is lost *)
+Example c08_gap_close_then_parse_same_batch :
+  agree (Kid 8) [Parse 0 1 10; Sync 0 0; Close 0 1; Parse 0 1 11; Sync 0 0; Bind 0 1; Execute 0; Sync 0 0] = (false, false) /\
+  model_obs (Kid 8) [Parse 0 1 10; Sync 0 0; Close 0 1; Parse 0 1 11; Sync 0 0; Bind 0 1; Execute 0; Sync 0 0]
+    = [NReplies 0 ([], (1, 0, 0, 1)); NReplies 0 ([], (1, 0, 1, 1)); NKilled 0].
+Proof. vm_compute. split; reflexivity. Qed.
+
+(* ... and with the Bind in the same batch the task dies inside the 'S' arm and leaves a name in
+   the server cache that the backend never saw: the next client preparing that text fails *)
+Example c08_gap_close_parse_bind_poisons_next_client :
+  agree (Kid 8) [Parse 0 1 10; Sync 0 0; Close 0 1; Parse 0 1 11; Bind 0 1; Execute 0; Sync 0 0; Parse 1 5 11; Bind 1 5; Execute 1; Sync 1 0] = (false, false) /\
+  model_obs (Kid 8) [Parse 0 1 10; Sync 0 0; Close 0 1; Parse 0 1 11; Bind 0 1; Execute 0; Sync 0 0; Parse 1 5 11; Bind 1 5; Execute 1; Sync 1 0]
+    = [NReplies 0 ([], (1, 0, 0, 1)); NKilled 0; NReplies 1 ([RErr], (1, 0, 0, 1))].
+Proof. vm_compute. split; reflexivity. Qed.
+
+(* G2: Bind n renamed when buffered, looked up again at Sync after a later Parse n *)
+Example c08_gap_bind_then_reparse :
+  agree (Kid 8) [Parse 0 1 10; Sync 0 0; Bind 0 1; Execute 0; Close 0 1; Parse 0 1 11; Sync 0 1] = (false, false).
+Proof. vm_compute. reflexivity. Qed.
+
+(* (v) G4: more statements in a batch than the server cache holds *)
+Example c08_gap_batch_larger_than_cache :
+  agree (Kid 1) [Parse 0 1 10; Parse 0 2 11; Bind 0 1; Execute 0; Sync 0 0] = (false, false) /\
+  agree (Kid 2) [Parse 0 1 10; Parse 0 2 11; Parse 0 3 12; Sync 0 0; Bind 0 1; Execute 0; Sync 0 0; Bind 0 1; Execute 0; Sync 0 0] = (false, false) /\
+  (* the second program leaves a statement on the backend that the cache does not know *)
+  (let w := fst (run (Kid 2) world0 [Parse 0 1 10; Parse 0 2 11; Parse 0 3 12; Sync 0 0]) in
+   (lru (servers w 0), btab (servers w 0)) = ([2; 1], [(2, 12); (1, 11); (0, 10)])).
+Proof. vm_compute. repeat split; reflexivity. Qed.
+
+(* G1: a client's DEALLOCATE ALL empties the backend under every other client's statements *)
+Example c08_gap_client_deallocate_all :
+  agree (Kid 4) [Parse 0 1 10; Sync 0 0; Parse 1 1 99; Bind 1 1; Execute 1; Sync 1 0; Bind 0 1; Execute 0; Sync 0 0] = (false, false).
+Proof. vm_compute. reflexivity. Qed.
+
+(* G1: a Parse that failed stays in the client map; its out-of-band retry makes the backend skip
+   the Close of the evicted statement; another client loses its statement and is disconnected *)
+Example c08_gap_failed_parse_close_skipped :
+  agree (Kid 2) [Parse 1 1 10; Sync 1 0; Parse 1 2 11; Sync 1 0; Parse 0 1 90; Sync 0 1; Bind 0 1; Execute 0; Sync 0 0;
+                 Bind 1 1; Execute 1; Sync 1 0; Bind 1 1; Execute 1; Sync 1 0] = (false, false).
+Proof. vm_compute. reflexivity. Qed.
+
+(* G3 and deliberate leniency: Bind of an unknown name disconnects the client (a direct
+   connection answers 26000 and carries on); Close of the unnamed statement is forwarded but the
+   client map keeps it; re-Parse of a named statement without Close is accepted (PostgreSQL: 42P05) *)
+Example c08_gap_unknown_name_disconnects :
+  model_obs (Kid 4) [Bind 0 1; Execute 0; Sync 0 0; Parse 0 1 10; Sync 0 0] = [NKilled 0] /\
+  spec_obs (Kid 4) [Bind 0 1; Execute 0; Sync 0 0; Parse 0 1 10; Sync 0 0] = [NReplies 0 ([RErr], (0, 0, 0, 1)); NReplies 0 ([], (1, 0, 0, 1))].
+Proof. vm_compute. split; reflexivity. Qed.
+Example c08_gap_close_unnamed_kept :
+  agree (Kid 4) [Parse 0 0 10; Sync 0 0; Close 0 0; Sync 0 0; Bind 0 0; Execute 0; Sync 0 0] = (false, false).
+Proof. vm_compute. reflexivity. Qed.
+Example c08_reparse_without_close_is_lenient :
+  agree (Kid 4) [Parse 0 1 10; Sync 0 0; Parse 0 1 11; Sync 0 0; Bind 0 1; Execute 0; Sync 0 0] = (true, true).
+Proof. vm_compute. reflexivity. Qed.
+
+(** ** Investigated and fine (behave like a direct connection): (ii) pool eviction while a client
+    still holds the evicted entry, (iii) one statement under two client names, (iv) a server
+    whose cache was cleared by DEALLOCATE ALL at checkin, (v) cache size 1 with Parse+Bind+Execute
+    in one batch. *)
+Example c08_investigated_fine :
+  agree (Kid 1) [Parse 0 1 10; Sync 0 0; Parse 1 1 11; Sync 1 0; Parse 1 2 10; Bind 1 2; Execute 1; Sync 1 0; Bind 0 1; Execute 0; Sync 0 0] = (true, true) /\
+  agree (Kid 4) [Parse 0 1 10; Parse 0 2 10; Sync 0 0; Close 0 1; Sync 0 0; Bind 0 2; Execute 0; Sync 0 1] = (true, true) /\
+  agree (Kid 4) [Parse 0 1 10; Sync 0 0; Cleanup 0; Bind 0 1; Execute 0; Sync 0 0] = (true, true) /\
+  agree (Kid 1) [Parse 0 1 10; Bind 0 1; Execute 0; Sync 0 0; Parse 0 2 11; Bind 0 2; Execute 0; Sync 0 0; Bind 0 1; Execute 0; Sync 0 0] = (true, true).
 Proof. vm_compute. repeat split; reflexivity. Qed.
